@@ -5,11 +5,42 @@
 //! GlobalAlloc contract requires them to match) and always release with the true layout, which
 //! keeps the harness itself free of UB when the code under test passes a wrong size.
 //! Per-thread live-byte counters give exact attribution because each case runs on one thread.
+//! A second release of a block is recorded instead of being passed on; inside a quarantine scope freed
+//! blocks are held back (contents intact, checksummed) until the scope ends, so that a second release is seen reliably
+//! (the block cannot have been handed out again) and a write into freed memory shows as a changed checksum.
 
 use std::alloc::{GlobalAlloc, Layout, System};
 use std::cell::Cell;
 
 const MAGIC: u64 = 0x5546_4c4f_575f_4856; // "UFLOW_HV"
+const FREED: u64 = 0x4652_4545_445f_4856; // "FREED_HV"
+/// quarantine capacity per thread (entries / bytes); the oldest blocks are really freed beyond it
+const QCAP: usize = 1 << 16;
+const QBYTES_MAX: usize = 512 << 20;
+
+#[derive(Clone, Copy)]
+struct QEntry {
+    base: *mut u8,
+    total: usize,
+    align: usize,
+    user_off: usize,
+    user_size: usize,
+    /// checksum of the contents at the time of release (a later write into the block changes it)
+    sum: u64,
+}
+
+unsafe fn checksum(p: *const u8, n: usize) -> u64 {
+    let mut h: u64 = 0xcbf29ce484222325;
+    let words = n / 8;
+    let wp = p as *const u64;
+    for i in 0..words {
+        h = (h ^ std::ptr::read_unaligned(wp.add(i))).wrapping_mul(0x100000001b3);
+    }
+    for i in words * 8..n {
+        h = (h ^ *p.add(i) as u64).wrapping_mul(0x100000001b3);
+    }
+    h
+}
 
 #[repr(C)]
 struct Header {
@@ -35,6 +66,87 @@ thread_local! {
     static PEAK: Cell<i64> = const { Cell::new(0) };
     static ALLOCS: Cell<u64> = const { Cell::new(0) };
     static MISMATCH: Cell<Mismatch> = const { Cell::new(Mismatch { count: 0, alloc_size: 0, alloc_align: 0, given_size: 0, given_align: 0 }) };
+    /// quarantine mode: freed blocks are poisoned and kept (so a second free or a late write is seen) until the scope ends
+    static QMODE: Cell<bool> = const { Cell::new(false) };
+    static QRING: Cell<*mut QEntry> = const { Cell::new(std::ptr::null_mut()) };
+    static QHEAD: Cell<usize> = const { Cell::new(0) };
+    static QLEN: Cell<usize> = const { Cell::new(0) };
+    static QBYTES: Cell<usize> = const { Cell::new(0) };
+    /// (count, size of the first block freed twice)
+    static DOUBLE_FREE: Cell<(u64, usize)> = const { Cell::new((0, 0)) };
+    static INVALID_FREE: Cell<u64> = const { Cell::new(0) };
+    static WRITE_AFTER_FREE: Cell<u64> = const { Cell::new(0) };
+}
+
+unsafe fn q_release(e: QEntry) {
+    // a write into a freed block shows as a changed checksum
+    let user = e.base.add(e.user_off);
+    if checksum(user, e.user_size) != e.sum {
+        let _ = WRITE_AFTER_FREE.try_with(|c| c.set(c.get() + 1));
+    }
+    System.dealloc(e.base, Layout::from_size_align_unchecked(e.total, e.align));
+}
+
+unsafe fn q_pop_oldest() {
+    let ring = QRING.with(|r| r.get());
+    let head = QHEAD.with(|h| h.get());
+    let len = QLEN.with(|l| l.get());
+    if ring.is_null() || len == 0 {
+        return;
+    }
+    let e = *ring.add(head);
+    QHEAD.with(|h| h.set((head + 1) % QCAP));
+    QLEN.with(|l| l.set(len - 1));
+    QBYTES.with(|b| b.set(b.get() - e.total));
+    q_release(e);
+}
+
+unsafe fn q_push(e: QEntry) {
+    let mut ring = QRING.with(|r| r.get());
+    if ring.is_null() {
+        ring = System.alloc(Layout::from_size_align_unchecked(QCAP * std::mem::size_of::<QEntry>(), 16)) as *mut QEntry;
+        if ring.is_null() {
+            q_release(e);
+            return;
+        }
+        QRING.with(|r| r.set(ring));
+    }
+    while QLEN.with(|l| l.get()) >= QCAP || (QBYTES.with(|b| b.get()) + e.total > QBYTES_MAX && QLEN.with(|l| l.get()) > 0) {
+        q_pop_oldest();
+    }
+    let head = QHEAD.with(|h| h.get());
+    let len = QLEN.with(|l| l.get());
+    *ring.add((head + len) % QCAP) = e;
+    QLEN.with(|l| l.set(len + 1));
+    QBYTES.with(|b| b.set(b.get() + e.total));
+}
+
+/// Starts a quarantine scope on this thread: blocks freed from now on are checksummed and held back.
+pub fn quarantine_begin() {
+    QMODE.with(|q| q.set(true));
+}
+
+/// Ends the scope: everything held back is checked for late writes and really freed.
+pub fn quarantine_end() {
+    QMODE.with(|q| q.set(false));
+    unsafe {
+        while QLEN.with(|l| l.get()) > 0 {
+            q_pop_oldest();
+        }
+    }
+}
+
+/// (blocks freed twice, size of the first such block) since the last call; resets the counter.
+pub fn take_double_frees() -> (u64, usize) {
+    DOUBLE_FREE.with(|c| c.replace((0, 0)))
+}
+
+pub fn take_invalid_frees() -> u64 {
+    INVALID_FREE.with(|c| c.replace(0))
+}
+
+pub fn take_writes_after_free() -> u64 {
+    WRITE_AFTER_FREE.with(|c| c.replace(0))
 }
 
 pub struct CheckingAlloc;
@@ -108,31 +220,66 @@ unsafe impl GlobalAlloc for CheckingAlloc {
 
     unsafe fn dealloc(&self, ptr: *mut u8, layout: Layout) {
         let hdr = ptr.sub(HDR) as *mut Header;
+        if (*hdr).magic == FREED {
+            // released a second time: recorded, never passed on (the system allocator would abort or corrupt its heap)
+            let size = (*hdr).size;
+            let _ = DOUBLE_FREE.try_with(|c| {
+                let (n, s) = c.get();
+                c.set((n + 1, if n == 0 { size } else { s }));
+            });
+            return;
+        }
         if (*hdr).magic != MAGIC {
-            // not ours (cannot happen) - hand to the system untouched
-            std::process::abort();
+            // not a live block of ours: recorded and left alone
+            let _ = INVALID_FREE.try_with(|c| c.set(c.get() + 1));
+            return;
         }
         let true_size = (*hdr).size;
         let true_align = (*hdr).align;
         if true_size != layout.size() || true_align != layout.align() {
             note_mismatch(true_size, true_align, layout);
         }
-        (*hdr).magic = 0;
+        (*hdr).magic = FREED;
         let pre = prefix(true_align);
         let real = Layout::from_size_align_unchecked(true_size + pre, true_align.max(16));
         track(-(true_size as i64));
+        if QMODE.try_with(|q| q.get()).unwrap_or(false) {
+            // contents are left as they are (a stale read then behaves as it would with most allocators) and summed
+            q_push(QEntry { base: ptr.sub(pre), total: real.size(), align: real.align(), user_off: pre, user_size: true_size, sum: checksum(ptr, true_size) });
+            return;
+        }
         System.dealloc(ptr.sub(pre), real);
     }
 
     unsafe fn realloc(&self, ptr: *mut u8, layout: Layout, new_size: usize) -> *mut u8 {
         let hdr = ptr.sub(HDR) as *mut Header;
         if (*hdr).magic != MAGIC {
-            std::process::abort();
+            // realloc of a freed / foreign block: recorded; the caller gets a fresh block so that the harness stays sane
+            if (*hdr).magic == FREED {
+                let size = (*hdr).size;
+                let _ = DOUBLE_FREE.try_with(|c| {
+                    let (n, s) = c.get();
+                    c.set((n + 1, if n == 0 { size } else { s }));
+                });
+            } else {
+                let _ = INVALID_FREE.try_with(|c| c.set(c.get() + 1));
+            }
+            return self.alloc(Layout::from_size_align_unchecked(new_size, layout.align()));
         }
         let true_size = (*hdr).size;
         let true_align = (*hdr).align;
         if true_size != layout.size() || true_align != layout.align() {
             note_mismatch(true_size, true_align, layout);
+        }
+        if QMODE.try_with(|q| q.get()).unwrap_or(false) {
+            // in a quarantine scope a reallocation moves: the old block is held back like any freed block
+            let newp = self.alloc(Layout::from_size_align_unchecked(new_size, true_align));
+            if newp.is_null() {
+                return newp;
+            }
+            std::ptr::copy_nonoverlapping(ptr, newp, true_size.min(new_size));
+            self.dealloc(ptr, Layout::from_size_align_unchecked(true_size, true_align));
+            return newp;
         }
         let pre = prefix(true_align);
         let real = Layout::from_size_align_unchecked(true_size + pre, true_align.max(16));
